@@ -102,6 +102,86 @@ class C08(vlib.Check):
             self.count("kind:" + case["kind"])
             yield case
 
+        # exports of databases large enough that an implementation working block-wise meets several blocks
+        for rows, bits in ([(300, 16384), (4500, 1024)] if self.tier == "quick" else [(300, 16384), (4500, 1024), (70000, 64), (9000, 1024), (40, 2 ** 17)]):
+            self.count("t:bigtxt")
+            yield {"t": "bigtxt", "rows": rows + rng.randrange(50), "bits": bits, "seed": rng.randrange(10 ** 6), "ext": rng.choice([".txt", ".txt.gz"])}
+        # one path written several times with databases of different sizes (large, then small, then medium), each read back
+        for _ in range(6 if self.tier == "quick" else 60):
+            self.count("t:overwrite")
+            yield {"t": "overwrite", "kind": rng.choice(KINDS), "seed": rng.randrange(10 ** 6), "how": rng.choice(["savez", "savez", "save.fps.bz2", "save.fps", "savetxt"]),
+                   "sizes": rng.choice([[400, 3, 60], [60, 2], [200, 1, 200, 5]])}
+
+    def _random_db(self, kind, n, bits, seed, names=True):
+        r = np.random.RandomState(seed)
+        per = 4
+        cols = r.randint(0, bits, size=(n, per))
+        cols.sort(axis=1)
+        indptr = np.arange(0, n * per + 1, per, dtype=np.int64)
+        data = np.ones(n * per, dtype=DTYPE[kind]) if kind == "bit" else r.randint(1, 9, size=n * per).astype(DTYPE[kind])
+        arr = csr_matrix((data, cols.ravel().astype(np.int64), indptr), shape=(n, bits))
+        arr.sum_duplicates()
+        fpn = ["m%05d_%d" % (i // 3, i % 3) for i in range(n)] if names else [None] * n
+        return FingerprintDatabase.from_array(arr, fpn, fp_type=CLS[kind], level=5, name="big"), arr, fpn
+
+    def _prop_bigtxt(self, case):
+        db, arr, fpn = self._random_db("bit", case["rows"], case["bits"], case["seed"])
+        p = os.path.join(self.tmp(), "big%d%s" % (case["seed"], case["ext"]))
+        try:
+            with warnings.catch_warnings():
+                warnings.simplefilter("ignore")
+                db.savetxt(p, with_names=True)
+            with (gzip.open if case["ext"].endswith(".gz") else open)(p, "rt") as f:
+                lines = f.read().split("\n")[:-1]
+        except Exception as e:  # noqa: BLE001
+            return {"key": "savetxt-raises:" + type(e).__name__, "what": "savetxt of %d rows x %d bits raised %r" % (case["rows"], case["bits"], e)}
+        finally:
+            if os.path.exists(p):
+                os.remove(p)
+        if len(lines) != case["rows"]:
+            return {"key": "savetxt-wrong:line-count", "what": "%d lines for %d rows" % (len(lines), case["rows"])}
+        for i, ln in enumerate(lines):
+            bs, _, nm = ln.partition(" ")
+            on = arr.indices[arr.indptr[i]:arr.indptr[i + 1]].tolist()
+            if len(bs) != case["bits"] or [j for j, ch in enumerate(bs) if ch == "1"] != sorted(on) or set(bs) - {"0", "1"}:
+                return {"key": "savetxt-wrong:large:bits", "what": "line %d of %d is not row %d's bit string" % (i, len(lines), i)}
+            if nm != fpn[i]:
+                return {"key": "savetxt-wrong:large:name", "what": "line %d of a %d x %d export carries the name %r, row %d is named %r" % (i, case["rows"], case["bits"], nm, i, fpn[i])}
+        return None
+
+    def _prop_overwrite(self, case):
+        p = os.path.join(self.tmp(), "ow%d%s" % (case["seed"], {"savez": ".fpz", "savetxt": ".txt"}.get(case["how"], case["how"][4:])))
+        try:
+            for k, n in enumerate(case["sizes"]):
+                kind = "bit" if case["how"] == "savetxt" else case["kind"]
+                db, arr, fpn = self._random_db(kind, n, 1024, case["seed"] + k)
+                try:
+                    with warnings.catch_warnings():
+                        warnings.simplefilter("ignore")
+                        if case["how"] == "savez":
+                            db.savez(p)
+                        elif case["how"] == "savetxt":
+                            db.savetxt(p, with_names=True)
+                        else:
+                            db.save(p)
+                    if case["how"] == "savetxt":
+                        with open(p) as f:
+                            got = f.read().split("\n")[:-1]
+                        ok = len(got) == n and all(g.partition(" ")[2] == fpn[i] for i, g in enumerate(got))
+                    else:
+                        back = FingerprintDatabase.load(p)
+                        ok = full_dump(back) == full_dump(db)
+                except Exception as e:  # noqa: BLE001
+                    return {"key": "saveload-raises:%s:rewritten-path:%s" % (case["how"].split(".")[0], type(e).__name__),
+                            "what": "write %d (%d rows) to a path that held %s rows before, then load: %r" % (k, n, case["sizes"][:k], e)}
+                if not ok:
+                    return {"key": "saveload-differs:%s:rewritten-path" % case["how"].split(".")[0],
+                            "what": "a database of %d rows saved to a path that held %s rows before does not load back as saved" % (n, case["sizes"][:k])}
+        finally:
+            if os.path.exists(p):
+                os.remove(p)
+        return None
+
     # ------------------------------------------------------------------ building the database
     def _rows(self, case):
         """rows in storage order [(col, val)], per build mode."""
@@ -191,6 +271,9 @@ class C08(vlib.Check):
 
     # ------------------------------------------------------------------ correspondence
     def impl(self, case):
+        if case["t"] in ("bigtxt", "overwrite"):
+            return {"ok": "see prop"}
+
         def go():
             db = self._build(case)
             if case["t"] == "txt":
@@ -203,6 +286,8 @@ class C08(vlib.Check):
         return attempt(go)
 
     def model_ops(self, case):
+        if case["t"] in ("bigtxt", "overwrite"):
+            return [{"op": "fpr.hash", "words": []}]
         ops = self._model_build(case)
         if case["t"] == "txt":
             return ops + [{"op": "db.savetxt", "id": "d", "with_names": case["with_names"]}]
@@ -211,6 +296,8 @@ class C08(vlib.Check):
         return ops
 
     def model_answer(self, case, answers):
+        if case["t"] in ("bigtxt", "overwrite"):
+            return {"ok": "see prop"}
         nb = 3 + len(case.get("setprops", []))
         if any("err" in a or "driver_error" in a for a in answers[:nb]):
             return {"err": "build", "answers": answers[:nb]}
@@ -225,6 +312,10 @@ class C08(vlib.Check):
 
     # ------------------------------------------------------------------ property
     def prop(self, case):
+        if case["t"] == "bigtxt":
+            return self._prop_bigtxt(case)
+        if case["t"] == "overwrite":
+            return self._prop_overwrite(case)
         try:
             db = self._build(case)
         except Exception as e:  # noqa: BLE001
@@ -261,6 +352,8 @@ class C08(vlib.Check):
         return None
 
     def nontrivial(self, case, a_impl):
+        if case["t"] in ("bigtxt", "overwrite"):
+            return vlib.canon(case)
         if len(case["fps"]) >= 2 and any(f["fp"]["idx"] for f in case["fps"]) and "ok" in a_impl:
             return vlib.canon(case)
         return None
